@@ -172,7 +172,18 @@ def _groups0(tier, rng):
         c = g.Conv(dict(rt=rng.choice([0, 1])))
         for i in range(rng.randrange(3, 10)):
             c.add(rng.choice(bad) if rng.random() < 0.55 else rng.choice(good))
-        thresh.append(c.case(seg=rng.choice(["one", "line", "rand"]), rng=rng) + "\tTAG=cmdonly")
+        thresh.append(c.case(seg=rng.choice(["one", "line", "rand"]), rng=rng) + "\tTAG=cmdonly-flood")
+    # floods in which a command that resets the transaction (RSET, a repeated greeting) comes at least once every three bad lines: the error
+    # budget belongs to the connection, not to the transaction
+    for _ in range(100 if tier == "quick" else 1500):
+        c = g.Conv(dict(lmtp=rng.choice([0, 0, 1])))
+        hello = b"LHLO x\r\n" if c.cfg.get("lmtp") else b"EHLO x\r\n"
+        c.add(hello)
+        for i in range(rng.randrange(5, 12)):
+            c.add(rng.choice(bad))
+            if rng.random() < 0.6:
+                c.add(rng.choice([b"RSET\r\n", hello, b"NOOP\r\n", b"RSET\r\n"]))
+        thresh.append(c.case(seg=rng.choice(["one", "line"]), rng=rng) + "\tTAG=cmdonly-flood")
     walks = []
     for _ in range(2000 if tier == "quick" else 60000):
         cfg = rng.choice(g.CONFIGS)
